@@ -6,6 +6,7 @@ import (
 	"fmt"
 	"io"
 	"net/http"
+	nurl "net/url"
 	"strconv"
 	"strings"
 
@@ -79,7 +80,7 @@ func buildUrl(url string, name string, file []string) string {
 		url = url + "/"
 	}
 
-	url = url + name
+	url = url + nurl.PathEscape(name)
 	if file == nil {
 		return url
 	}
@@ -88,7 +89,13 @@ func buildUrl(url string, name string, file []string) string {
 		url = url + "/"
 	}
 
-	url = url + strings.Join(file, "/")
+	// escape each path component on its own: a '/' only ever separates
+	// components
+	escaped := make([]string, len(file))
+	for i, f := range file {
+		escaped[i] = nurl.PathEscape(f)
+	}
+	url = url + strings.Join(escaped, "/")
 	return url
 }
 
